@@ -266,6 +266,13 @@ fn host_conn(name: String, mut s: TcpStream) {
                 }
                 let mut head_bytes: Vec<u8> = head.chars().map(|c| c as u32 as u8).collect();
                 let res = match plan.framing.as_str() {
+                    "reset" => {
+                        // host fault: the request was read, the connection is dropped without an answer
+                        let _ = s.shutdown(std::net::Shutdown::Both);
+                        verif::trace::emit(json!({"e": "HostClose", "host": name, "hconn": hconn,
+                            "bytesTotal": total_bytes + buf.len(), "bytesParsed": parsed_bytes, "fault": "reset"}));
+                        return;
+                    }
                     "chunked" => {
                         head_bytes.extend_from_slice(b"transfer-encoding: chunked\r\n\r\n");
                         s.write_all(&head_bytes).and_then(|_| write_chunked(&mut s, &plan.body, &plan.frames, 2))
